@@ -71,3 +71,102 @@ R.contract(f'{TS}.complete_task',
         "forall('Task', lambda k: (k in __ret__) == (k in __done__))",
         "empty(__ret__)",
     ])
+
+# ------------------------------------------------------------------ plan phase
+R.func('ucache', ['Task'], 'Bool')     # GHOST: would this task be served from the cache (decided by TaskCoordinator.use_cache)
+
+# PLANINV: the representation invariant while the DAG is being built (nothing started yet).
+R.macro('PLANINV', ['s'], """(
+    empty(s.STARTED) and empty(s.FIN) and empty(s.SUCC)
+    and forall('Type', lambda y: empty(ACT(s)[y]))
+    and forall('Task', lambda t: (t in P(s)) == (t in s.ALL))
+    and forall('Task','Task', lambda t, d: (d in PD(s)[t]) == (d in DD(s)[t]))
+    and forall('Task','Task', lambda t, d: (t in PT(s)[d]) == (d in DD(s)[t]))
+    and forall('Task','Task', lambda t, d: implies(d in DD(s)[t], (d in deps(t)) and (t in s.ALL) and (not ucache(t))))
+    and forall('Task','Task', lambda t, d: implies((t in s.ALL) and (not ucache(t)) and (d in deps(t)), d in DD(s)[t]))
+    and forall('Inst', lambda i: implies(i in s.processed_task_ids, (Inst_to_Task(i) in s.ALL) and (i in INSTS(s)[Inst_to_Task(i)])))
+    and forall('Task','Inst', lambda t, i: implies(i in INSTS(s)[t], (Inst_to_Task(i) == t) and (i in s.processed_task_ids)))
+)""")
+# every dependency edge leads to an inserted task, except towards values that still have an instance in `front`
+R.macro('CLOSED_EXCEPT', ['s', 'front'], """forall('Task','Task', lambda t, d: implies(d in DD(s)[t],
+    (d in s.ALL) or exists('Inst', lambda i: (i in front) and (Inst_to_Task(i) == d))))""")
+
+R.contract('labtech.tasks:get_direct_dependencies',
+    params={'task': 'Inst'}, returns='List[Inst]', pure=True,
+    ensures=[
+        C("forall('Inst', lambda i: implies(i in result, Inst_to_Task(i) in deps(Inst_to_Task(task))))", 'sound', serves=('C02', 'C03', 'C01')),
+        C("forall('Task', lambda d: implies(d in deps(Inst_to_Task(task)), exists('Inst', lambda i: (i in result) and (Inst_to_Task(i) == d))))",
+          'complete-by-value', serves=('C02', 'C01', 'C03')),
+    ],
+    note='verified separately against the value-tree spec (contracts/c60_values.py); used here through its contract only')
+
+R.contract('labtech.lab:TaskCoordinator.use_cache',
+    self_type='Obj[TaskCoordinator]', params={'task': 'Task'}, returns='Bool', pure=True,
+    defn='ucache(task)',
+    note='GHOST definition of ucache: the value this call returns; its stability between plan time and submit time is an obligation of the coordinator (C03)')
+
+R.cls('labtech.lab:TaskCoordinator', fields={'bust_cache': 'Bool'})
+R.classes[TS].fields['coordinator'] = 'Obj[TaskCoordinator]'
+
+R.contract(f'{TS}.insert_task',
+    self_type='Obj[TaskState]', params={'task': 'Inst', 'dependencies': 'List[Inst]'},
+    requires=[],
+    ensures=[
+        C("forall('Task', lambda t: (t in P(self)) == ((t in old(P(self))) or (t == Inst_to_Task(task))))", 'pending+=task'),
+        C("forall('Task','Inst', lambda t, i: (i in INSTS(self)[t]) == ((i in old(INSTS(self))[t]) or ((t == Inst_to_Task(task)) and (i == task))))", 'instances+=task'),
+        C("forall('Task','Task', lambda t, d: (d in DD(self)[t]) == ((d in old(DD(self))[t]) or ((t == Inst_to_Task(task)) and exists('Inst', lambda i: (i in dependencies) and (Inst_to_Task(i) == d)))))", 'DD+=deps'),
+        C("forall('Task','Task', lambda t, d: (d in PD(self)[t]) == ((d in old(PD(self))[t]) or ((t == Inst_to_Task(task)) and exists('Inst', lambda i: (i in dependencies) and (Inst_to_Task(i) == d)))))", 'PD+=deps'),
+        C("forall('Task','Task', lambda d, t: (t in PT(self)[d]) == ((t in old(PT(self))[d]) or ((t == Inst_to_Task(task)) and exists('Inst', lambda i: (i in dependencies) and (Inst_to_Task(i) == d)))))", 'PT+=task'),
+    ],
+    ghost_exit={'self.ALL': 'self.ALL | {Inst_to_Task(task)}'},
+    frame=['self.pending_tasks', 'self.task_to_instances', 'self.task_to_direct_dependencies',
+           'self.task_to_pending_dependencies', 'self.task_to_pending_dependents'],
+    candidates=[
+        "forall('Task','Task', lambda t, d: (d in DD(self)[t]) == ((d in old(DD(self))[t]) or ((t == Inst_to_Task(task)) and exists('Inst', lambda i: (i in __done__) and (Inst_to_Task(i) == d)))))",
+        "forall('Task','Task', lambda t, d: (d in PD(self)[t]) == ((d in old(PD(self))[t]) or ((t == Inst_to_Task(task)) and exists('Inst', lambda i: (i in __done__) and (Inst_to_Task(i) == d)))))",
+        "forall('Task','Task', lambda d, t: (t in PT(self)[d]) == ((t in old(PT(self))[d]) or ((t == Inst_to_Task(task)) and exists('Inst', lambda i: (i in __done__) and (Inst_to_Task(i) == d)))))",
+    ])
+
+R.contract(f'{TS}.process_tasks',
+    self_type='Obj[TaskState]', params={'tasks': 'List[Inst]'},
+    requires=['PLANINV(self)', 'CLOSED_EXCEPT(self, tasks)'],
+    ensures=['PLANINV(self)',
+             C("forall('Task','Task', lambda t, d: implies(d in DD(self)[t], d in self.ALL))", 'closed'),
+             C("forall('Inst', lambda i: implies(i in tasks, i in self.processed_task_ids))", 'every given instance processed', serves=('C03',)),
+             C("subset(old(self.ALL), self.ALL) and subset(old(self.processed_task_ids), self.processed_task_ids)", 'monotone'),
+             ],
+    frame=['self.pending_tasks', 'self.processed_task_ids', 'self.task_to_instances', 'self.task_to_direct_dependencies',
+           'self.task_to_pending_dependencies', 'self.task_to_pending_dependents', 'self.ALL'],
+    locals={'all_dependencies': 'List[Inst]', 'dependency_tasks': 'List[Inst]'},
+    cand_locals=('all_dependencies',),
+    candidates=[
+        'PLANINV(self)',
+        "forall('Task','Task', lambda t, d: implies(d in DD(self)[t], (d in self.ALL) or exists('Inst', lambda i: ((i in tasks) or (i in all_dependencies)) and (Inst_to_Task(i) == d))))",
+        "forall('Inst', lambda i: implies(i in __done__, i in self.processed_task_ids))",
+        "subset(old(self.ALL), self.ALL) and subset(old(self.processed_task_ids), self.processed_task_ids)",
+    ])
+
+# ------------------------------------------------------------------ scheduling decision
+R.deffunc('OFTYPE', {'S': 'Set[Task]', 'y': 'Type'}, 'Set[Task]', '{t for t in S if ty(t) == y}',
+    lemmas=[C("forall('Set[Task]','Type','Task', lambda S, y, x: OFTYPE(sadd(S, x), y) == ite(ty(x) == y, sadd(OFTYPE(S, y), x), OFTYPE(S, y)), pat=lambda S, y, x: OFTYPE(sadd(S, x), y))", 'OFTYPE-add'),
+            C("forall('Set[Task]','Type','Task', lambda S, y, x: (x in OFTYPE(S, y)) == ((x in S) and (ty(x) == y)), pat=lambda S, y, x: x in OFTYPE(S, y))", 'OFTYPE-mem'),
+            C("forall('Type', lambda y: OFTYPE(typed_empty('Set[Task]'), y) == typed_empty('Set[Task]'))", 'OFTYPE-empty')])
+R.contract(f'{TS}.get_ready_tasks',
+    self_type='Obj[TaskState]', params={}, returns='List[Task]',
+    requires=['INV(self)'],
+    ensures=[
+        C("forall('Task', lambda t: implies(t in result, (t in P(self)) and empty(PD(self)[t])))", 'ready => pending and unblocked', serves=('C02', 'C01', 'C03', 'C10', 'C14')),
+        C("forall('Type', lambda y: implies(not isnone(maxpar(y)), card(ACT(self)[y]) + card(OFTYPE(result, y)) <= unopt(maxpar(y))))",
+          'within per-type limit', serves=('C04',)),
+        C("forall('Task', lambda t: implies((t in P(self)) and empty(PD(self)[t]) and (t not in result), (not isnone(maxpar(ty(t)))) and (card(ACT(self)[ty(t)]) + card(OFTYPE(result, ty(t))) >= unopt(maxpar(ty(t))))))",
+          'maximal: skipped only at the limit', serves=('C05', 'C11')),
+    ],
+    frame=[],
+    locals={'ready_tasks': 'List[Task]'},
+    cand_locals=('task_type_counts',),
+    candidates=[
+        "forall('Type', lambda y: task_type_counts[y] == card(ACT(self)[y]) + card(OFTYPE(__ret__, y)))",
+        "forall('Type', lambda y: implies(not isnone(maxpar(y)), task_type_counts[y] <= unopt(maxpar(y))))",
+        "forall('Task', lambda t: implies(t in __ret__, (t in __done__) and (t in P(self)) and empty(PD(self)[t])))",
+        "forall('Task', lambda t: implies((t in __done__) and empty(PD(self)[t]) and (t not in __ret__), (not isnone(maxpar(ty(t)))) and (task_type_counts[ty(t)] >= unopt(maxpar(ty(t))))))",
+    ])
